@@ -321,5 +321,24 @@ theorem rows_flatMap {α} (ts : List α) (len : α → Nat) (keys : List String)
       congr 2
       omega
 
+theorem abs_rows_getD (t : Table) (n : Nat) (hr : t.Rect n) (hne : t ≠ []) (j : Nat) (hj : j < n) :
+    t.rows.getD j [] = t.row j := by
+  simp [rows, nrows_of_rect hr hne, List.getD_eq_getElem?_getD, hj]
+
+theorem lookup_row (t : Table) (i : Nat) (k : String) :
+    Recs.lookup t.cols (t.row i) k = (t.getCol k).getD i .none := by
+  have hrow : t.cols.zip (t.row i) = t.map fun c => (c.1, c.2.getD i .none) := by
+    simp [cols, row, List.zip_map']
+  unfold Recs.lookup getCol col?
+  rw [hrow, List.find?_map]
+  have : ((fun x : String × Cell => x.1 == k) ∘ fun c : String × List Cell => (c.1, c.2.getD i Cell.none))
+      = fun c => c.1 == k := by funext c; rfl
+  rw [this]
+  cases t.find? (fun c => c.1 == k) with
+  | none =>
+    simp only [Option.map_none, Option.getD_none, List.getD_eq_getElem?_getD, List.getElem?_replicate]
+    split <;> rfl
+  | some e => simp
+
 end Table
 end Pyg
